@@ -32,6 +32,8 @@ def run(ctx):
     # identical configurations must agree on the digest of all observations across builds
     by_cfg = {}
     for j in js:
+        if j.stats.get("fixpoint_reached") == 0:
+            continue   # ended by its time budget: it saw a prefix of the state space, its digest is not comparable
         g = list(j.stats.get("groups", {}).items())
         if g:
             by_cfg.setdefault(g[0][0], set()).add(g[0][1].get("digest"))
